@@ -508,18 +508,21 @@ class AtomicWriter(Generic[IOKindT]):
         for i in _itertools.count(start=1):
             self._temp_name = self.filename.with_name(f'tmp_{i}')
             try:
-                if self.is_bytes:  # type checkers can't narrow self from this!
-                    self.temp = self._temp_name.open('xb')  # type: ignore
-                else:
-                    self.temp = self._temp_name.open('xt', encoding=self.encoding)  # type: ignore
-                break
+                binary = self._temp_name.open('xb')
             except FileExistsError:
-                pass
-            except Exception:
-                # Some errors (like an unknown encoding) are only detected after the file was created.
-                self._temp_name.unlink(missing_ok=True)
-                self._temp_name = None
-                raise
+                continue
+            if self.is_bytes:  # type checkers can't narrow self from this!
+                self.temp = binary  # type: ignore
+            else:
+                try:
+                    self.temp = io.TextIOWrapper(binary, encoding=self.encoding)  # type: ignore
+                except BaseException:
+                    # The file is ours but cannot be used (an unknown encoding for instance), remove it again.
+                    binary.close()
+                    self._temp_name.unlink()
+                    self._temp_name = None
+                    raise
+            break
 
     def __enter__(self) -> IOKindT:
         """Delegate to the underlying temporary file handler."""
